@@ -128,6 +128,26 @@ def check_none_before_hom(ctx, fi):
                 ds = [v for s_, v in util.assignments_to(fi.node, recv) if isinstance(v, ast.AST)]
                 if ds:
                     origins = [u(v) for v in ds]
+
+            def canon(txt):
+                """receiver spelling made canonical: single-definition locals resolved, d.get(k) read as d[k]"""
+                try:
+                    e_ = ast.parse(txt, mode="eval").body
+                except SyntaxError:
+                    return txt
+                e_ = util.expand_single_defs(fi.node, e_)
+                for x_ in list(ast.walk(e_)):
+                    if isinstance(x_, ast.Call) and isinstance(x_.func, ast.Attribute) and x_.func.attr == "get" and len(x_.args) == 1 and not x_.keywords:
+                        x_.__class__ = ast.Subscript
+                        x_.value, x_.slice, x_.ctx = x_.func.value, x_.args[0], ast.Load()
+                        x_._fields = ast.Subscript._fields
+                try:
+                    return u(e_)
+                except Exception:
+                    return txt
+
+            by_canon = {canon(k_[1]): k_[1] for k_ in REVIEWED_HOM_SITES if k_[0] == fi.qual}
+            origins = [by_canon.get(canon(o), o) if (fi.qual, o) not in REVIEWED_HOM_SITES else o for o in origins]
             reasons = [REVIEWED_HOM_SITES.get((fi.qual, o)) for o in origins]
             reason = "; ".join(sorted(set(reasons))) if reasons and all(r is not None for r in reasons) else None
             if reason is not None:
